@@ -76,7 +76,7 @@ CHECKS['C07'] = dict(
 CHECKS['C09'] = dict(
     technique='Python->Lean translation (T2) of the runtime excerpt/line-column arithmetic regenerated on every run + Lean 4 theorems about the translated definitions (all texts, all indices) + exhaustive message sweep on the implementation + failing-position correspondence with the code model',
     text=('Proof: Tie.excerpt_spec (for every text and every index not holding a line break, the translated _extract_excerpt yields one line without line break followed by a caret standing '
-          'under text[index], in all four abbreviation regimes and for lines of any length) and Tie.linecol_spec (line = 1 + newlines before, column = 1 + offset in line) are proved about '
+          'under text[index], in all four abbreviation regimes and for lines of any length) and Tie.linecol_spec (line = 1 + newlines before, column = 1 + offset in line), Tie.linecol_defined_iff (a pair exists for exactly the indices below len(text): at the end of input the function is an IndexError, which is why the emitted code reports None, None there) and Tie.linecol_at_newline (what the table holds at a line break - the indices the property excludes) are proved about '
           'Gen/Excerpt.lean, which translator T2 regenerates from the runtime text in /repo/sourcer/translator.py on every run; a changed constant or comparison breaks the proof for all inputs at once. '
           'T2 itself is validated by running the translated definitions against the real functions. The implementation messages are swept over line length x column x line position. '
           'PARTIAL: index in [pos, len] / never beyond the first unmatchable character is tied through the failing _pos of the code model on the C01 grammar set (no theorem yet); bytes rendering not modelled.'),
